@@ -69,7 +69,9 @@ CLAUSES = [
 RULE = ("originals (<=6 notes, 1-2 channels, key signatures, control / program changes, time signatures anywhere for copy / split and on bar lines for the "
         "bar routes) x derivation routes (Sequence.copy, split, sequences_split_bars with "
         "either re-quantisation setting, Bar.copy, Track.copy, Composition.copy) x histories of <=8 public operations on either "
-        "side, a quarter of them with one side handed to the other through concatenate (D24d); copies of bars / tracks / compositions built directly from "
+        "side, a quarter of them with one side handed to the other through concatenate (D24d), three in ten with one side MERGING the other (after a "
+        "transposition / channel change that keeps the note keys apart) followed by in-place operations on the absolute view; the structural clauses "
+        "(no shared Message object, no shared mutable object through a view that is not stale) are judged after the derivation AND after the history; copies of bars / tracks / compositions built directly from "
         "plain data (attributes, name, program, both views of every bar against the data put in); copy after mutation: the same bars built with "
         "default_channel in {not passed, 0, 1, 3, 5, 15}, 0-2 public mutators on each bar in place (Sequence.set_channel, Sequence.transpose, "
         "Bar.transpose; small intervals, octaves, wrapping intervals), then Bar / Track / Composition copies judged bar by bar against the "
@@ -81,10 +83,18 @@ ASSUMPTIONS = ["freshness typing rules are trusted as a description of Python al
                "non-scalar parameter may be shared",
                "CPython object identity (id()) is what 'shared' means; the Lean value model has no aliasing, so this property is "
                "decided by the identity/snapshot harness on the real objects plus the value-level model of copy/split",
-               "histories whose sequence-valued arguments come from the other side (concatenate/merge share messages by design) are out of scope"]
+               "histories whose sequence-valued argument of CONCATENATE comes from the other side share messages by design (known finding D24d: judged, "
+               "and accepted only with the predicted outcome); MERGE with the other side as its argument is in scope (mergeOther): AbsoluteSequence.merge "
+               "adopts the argument's message objects, but Sequence.merge ends with a normalise() round trip that severs the sharing — on the unchanged "
+               "tree these histories pass (no finding D46)"]
 ROUTES = ["copy", "split", "bars", "bars-requant", "bar-copy", "track-copy", "composition-copy"]
 TRACK_NAME = "Klavier I"
 INPLACE = {"editAbsPeek", "editRelPeek", "editAbsFirst", "editRelFirst", "transpose", "setChannel", "scale", "editAbs", "editRel", "quantise", "cutoff", "qnl"}
+
+
+# what follows a mergeOther: in-place operations on the absolute view, and reads that do not rebuild it
+MERGE_TAIL = [("quantise", None), ("quantise", [12]), ("quantise", [6, 4]), ("qnl", None, False), ("qnl", [6, 12, 24], True), ("qnl", [12], False),
+              ("cutoff", 12, 6), ("cutoff", 6, 3), ("cutoff", 24, 1), ("quantiseAndNormalise",), ("flags",), ("readAbs",), ("pairings",)]
 
 
 def ids_of(s):
@@ -96,10 +106,13 @@ def ids_of(s):
     return out
 
 
-def reach(root):
+def reach(root, live_only=False):
     """ids of the mutable objects reachable from `root` through attributes and container elements:
     instances of scoda classes (enum members excluded), lists, dicts, sets.  Python can only mutate what it can
-    reach, so two objects with disjoint reach sets cannot influence one another (the heap theorem `C16.frame`)."""
+    reach, so two objects with disjoint reach sets cannot influence one another (the heap theorem `C16.frame`).
+    `live_only`: a view object that its Sequence has flagged stale is not followed — the wrapper never reads or writes a stale view, the next
+    access REPLACES it by a newly converted one (`abs` / `rel` / `refresh`); used for the walk AFTER a history, where e.g. merge legitimately
+    leaves a stale absolute view behind that still lists the argument's messages."""
     import enum
     seen = {}
     stack = [root]
@@ -120,6 +133,8 @@ def reach(root):
             seen[id(o)] = o
             d = getattr(o, "__dict__", None)
             if d is not None:
+                if live_only and "_abs_stale" in d and "_rel_stale" in d:
+                    d = {k: v for k, v in d.items() if not (k == "_abs" and d["_abs_stale"]) and not (k == "_rel" and d["_rel_stale"])}
                 stack.extend(d.values())
             for sl in getattr(type(o), "__slots__", ()):
                 if hasattr(o, sl):
@@ -343,6 +358,33 @@ def o_independent(inp):
                 shared_ids[oj] |= set(now.get("rel", ([], []))[0])
                 took[ti][oj] = took[ti].get(oj, 0) + 1
             continue
+        if op[0] == "mergeOther":
+            # the touched side takes the OTHER side in as an argument of merge (seeded change C16_agent8).  AbsoluteSequence.merge adopts the
+            # argument's absolute-view message objects; Sequence.merge ends with normalise(), whose round trip (relative view converted from
+            # the absolute one with COPIED messages, absolute view invalidated) severs that sharing again: unlike concatenate (D24d) nothing
+            # is shared afterwards, and everything below is judged as for any other history
+            for ti in range(len(targets)):
+                oj = min(ti, len(others) - 1)
+                try:
+                    targets[ti].merge([others[oj]])
+                except Exception:
+                    simulable = False
+                    continue
+                took[ti] = {}              # the target's relative list was regenerated from its absolute view (copies)
+                now = _raw(others[oj])
+                if pred[oj] is None:
+                    # merge reads its argument's absolute view (it may have to be regenerated): the argument's content must be what it was
+                    c_now, was = _content(now), first[oj]
+                    bad = [v for v in c_now if v in was and c_now[v] != was[v]]
+                    if not bad and "abs" in c_now and "abs" not in was and "rel" in was and not inp.get("halved") and c_now["abs"] != was["rel"]:
+                        bad = ["abs"]
+                    if bad:
+                        fails.append(("independent", f"merge changed the content of its ARGUMENT (the other side, view(s) {bad})" + OBS + json.dumps(
+                            {"only_shared_objects_changed": False, "predicted": None, "observed": now.get("rel", ([], []))[1]})))
+                        return fails
+                # a view of the argument that merge had to regenerate is watched from now on; the views watched so far stay as they were recorded
+                before[oj] = dict(now, **before[oj])
+            continue
         if op[0] in ("concat", "merge", "copy", "split"):
             continue
         for ti in range(len(targets)):
@@ -375,6 +417,30 @@ def o_independent(inp):
             else:
                 simulable = False      # normalise (keeps the note objects, replaces the waits), edits of the first message only, ...
     after = [_raw(o) for o in others]
+    # the structural clauses once more AFTER the history (seeded change C16_agent8: nothing is shared at derivation time, the sharing arises
+    # later, through a binary operation whose argument is the counterpart).  Message objects a side was HANDED through concatenate (D24d:
+    # shares by design, judged by the 'independent' / 'views' clauses) are left out; stale views are not followed (see `reach`).
+    handed = set().union(*shared_ids) if shared_ids else set()
+    sh_after = set()
+    for w in watched:
+        for d in derived:
+            sh_after |= (ids_of(w) & ids_of(d)) - handed
+    if sh_after:
+        fails.append(("shared-after", f"after the history {[o[0] for o in inp['ops']]} on the {side} side, {len(sh_after)} Message objects sit in a fresh "
+                                      f"view of the original AND in a fresh view of the {route} result"))
+    else:
+        for wi, w in enumerate(watched):
+            rw = reach(w, live_only=True)
+            hit = None
+            for di, d in enumerate(derived):
+                common = (set(rw) & set(reach(d, live_only=True))) - handed
+                if common:
+                    hit = (di, len(common), sorted({type(rw[c]).__name__ for c in common}))
+                    break
+            if hit:
+                fails.append(("reach-after", f"{route}: after the history {[o[0] for o in inp['ops']]} on the {side} side, original {wi} and derived {hit[0]} "
+                                             f"share {hit[1]} mutable object(s) through views that are not stale: {hit[2]}"))
+                break
     for i, (x, y) in enumerate(zip(before, after)):
         changed_views = [v for v in ("abs", "rel") if v in x and v in y and x[v] != y[v]]
         vanished = [v for v in ("abs", "rel") if v in x and v not in y]
@@ -700,9 +766,23 @@ def generate(ctx):
                     a.append(G.pm(TIMESIG, 0, G.bar_len(n0, d0), num=n1, den=d1))
                 a.sort(key=lambda m: (m[2], m[1], m[0], -1 if m[3] is None else m[3]))
                 ctx.count("original-with-time-signatures")
+        merge_other = rng.random() < 0.3
+        if merge_other and rng.random() < 0.75:
+            # notes (and control / program changes) only: a signature that both sides hold is a duplicate after the merge
+            a = [m for m in a if m[0] not in (TIMESIG, KEYSIG)]
+            ctx.count("history-with-mergeOther:original-without-signatures")
         init = rng.choice([("abs", a), ("rel", G.abs_to_rel(a))])
         ops = H.gen_history(rng, rng.randint(1, 8), reads=True)
-        if rng.random() < 0.25:
+        if merge_other:
+            # one side MERGES the other (seeded change C16_agent8): first moved to other pitches / another channel, so that no note key is on
+            # both sides and the merged result is already in normal form, then operated on in place through the absolute view
+            ops = ops[:rng.choice([0, 0, 1, 2])]
+            ops.append(rng.choice([("transpose", rng.choice([1, -1, 3, 5, 7, -5])), ("setChannel", rng.choice([2, 3, 4, 5]))]))
+            ops.append(("mergeOther",))
+            for _ in range(rng.randint(1, 3)):
+                ops.append(rng.choice(MERGE_TAIL))
+            ctx.count("history-with-mergeOther")
+        elif rng.random() < 0.25:
             # one side takes the other in through concatenate (D24d), somewhere in the history
             ops.insert(rng.randint(0, len(ops) - 1), ("concatOther",))
             if rng.random() < 0.6:
